@@ -245,6 +245,10 @@ def literal_cases(tier, rng):
                 s = v - (1 << 32) if v >= (1 << 31) else v
                 yield "&H%X" % v, "L:%d" % s
                 yield "&O%o" % v, "L:%d" % s
+                # negated: a LONG literal stays a LONG (only -32768 becomes an INTEGER, 2147483648 a DOUBLE)
+                neg = "I:-32768" if -s == -32768 else ("L:%d" % -s if -s <= 2147483647 else "D:%r" % float(-s))
+                yield "-&H%X" % v, neg
+                yield "-&O%o" % v, neg
     # fractions
     nf = 40000 if tier == "thorough" else 3000
     for i in range(nf):
